@@ -1,5 +1,6 @@
 (* Properties/C15.v — Operators keep a valid changelog and compute incrementally what batch computes.
-   Statements only; proofs in Proofs/OperatorsProofs.v (and the instance lemmas in Proofs/LimitOrderProofs.v).
+   Statements only; proofs in Proofs/OperatorsProofs.v, LookupJoinProofs.v, LimitPruneProofs.v (instance lemmas in
+   Proofs/LimitOrderProofs.v).
    Model: Model/Operators.v.  run_N inp = everything node N emits when its source replays inp and ends.
    A bag is given as a list of rows [rows] with  represents rows l := forall x, count_rows rows x = consolidate l x
    (every valid changelog has one: C15_expand_represents); the batch meaning B_N is a function of [rows] only.
@@ -8,7 +9,7 @@
    C15_tie_expressions_congruent).
    The group-by clauses of the property are carried by C16_final (Properties/C16.v) and the stream / outer join
    clauses by C19_final (Properties/C19.v); those nodes are not modelled here. *)
-From Octo Require Import Operators LimitOrder OperatorsProofs LimitOrderProofs ChangelogLemmas.
+From Octo Require Import Operators LimitOrder OperatorsProofs LimitOrderProofs LimitPruneProofs LookupJoinProofs ChangelogLemmas.
 
 (* the bool validity check of Model/Changelog.v means: no prefix has a negative multiplicity *)
 Theorem C15_valid_meaning : forall l, valid_changelog l = true <-> (forall n x, 0 <= consolidate (firstn n l) x).
@@ -70,6 +71,16 @@ Proof.
 Qed.
 Print Assumptions C15_lookup_retracting_joined_invalid.
 
+(* the exact condition on the joined side: for every source row, every prefix of what the joined side emits
+   consolidates between the empty bag and the joined side's total (an insert-only joined side is the common case:
+   joined_inserts_bounded).  It is sufficient, and it is necessary: the output is a valid changelog for every
+   valid input if and only if it holds. *)
+Theorem C15_lookup_join_valid_exact : forall joined, joined_congruent joined ->
+  ((forall inp, valid_changelog (records inp) = true -> valid_changelog (records (run_lookup joined inp)) = true)
+   <-> joined_bounded joined).
+Proof. exact lookup_valid_exact. Qed.
+Print Assumptions C15_lookup_join_valid_exact.
+
 (* Distinct: stored count = consolidated multiplicity of the prefix, emitted bag = its support *)
 Theorem C15_distinct_valid : forall n inp, arity_is n (records inp) ->
   valid_changelog (records inp) = true -> valid_changelog (records (run_distinct inp)) = true.
@@ -86,6 +97,23 @@ Theorem C15_limit_valid : forall n inp,
   valid_changelog (records inp) = true -> valid_changelog (records (run_limit n inp)) = true.
 Proof. exact limit_valid. Qed.
 Print Assumptions C15_limit_valid.
+
+(* LIMIT as a batch operator (no retraction possible, which is when the planner uses the Limit node):
+   a sub-bag of the input with min(n, #rows) rows *)
+Theorem C15_limit_batch : forall n inp rows, 0 <= n -> insert_only (records inp) = true ->
+  represents rows (records inp) -> is_limit_of n rows (rows_of (run_limit n inp)).
+Proof. exact limit_node_is_limit_of. Qed.
+Print Assumptions C15_limit_batch.
+
+(* ORDER BY ... LIMIT n (OrderSensitiveTransform with a limit) on a changelog with retractions
+   (noRetractionsPossible = false), and on an insert-only one with the pruning (noRetractionsPossible = true):
+   the output is insert-only, hence valid, and it is the first n rows of the sorted consolidated input *)
+Theorem C15_order_by_limit : forall n0 ks n inp rows noretr, key_congruent ks -> 0 <= n ->
+  arity_is n0 (records inp) -> valid_changelog (records inp) = true -> represents rows (records inp) ->
+  (noretr = true -> insert_only (records inp) = true) ->
+  exists out, run_ost ks (Some n) noretr inp = Ok out /\ insert_only (records out) = true /\ is_top_n ks n rows (rows_of out).
+Proof. intros n0 ks n inp rows noretr Hk Hn Ha V R Hi. exact (ost_top_n_full n0 ks n inp rows noretr Hk Hn Ha V R Hi). Qed.
+Print Assumptions C15_order_by_limit.
 
 (* ORDER BY (OrderSensitiveTransform without limit): insert-only output, sorted by the keys, same bag as the
    consolidated input — with or without the noRetractionsPossible flag *)
